@@ -107,6 +107,10 @@ def make_world(scn, start=START):
         ctx = Ctx(f"squeeth[{scn}]", prices, USD, [ua, sa], [(sq.WETH, 40), (sq.OSQTH, 30)], sdata.index)
         ctx.begin_bar(start)
         ctx.bar_log = []
+        # part of the canonical state: whether a historical time-weighted price has been asked for in this bar (a read that leaves no trace in
+        # vaults or wallet; without this the state after the read would be merged with the state before it and never be expanded)
+        ctx.model = {"historical_read_in_bar": None}
+        ctx.canon_model = True
         return ctx
 
     w = World(f"squeeth[{scn}]", build, ((),), {"squni.data": udata, "squeeth.data": sdata, "prices": prices})
@@ -219,6 +223,15 @@ def alphabet(world):
                     note("withdraw_lp", vault=vk)
                     return m.withdraw_uni_position(vk, m.vault[vk].uni_nft_id)
                 out.append(Op(f"withdraw_lp[v{i}]", wlp, False, "withdraw_lp"))
+        if ctx.bar >= 3:
+            def ask_old_twap(c):
+                # a strategy / indicator asks for a HISTORICAL time-weighted price (the documented `now` argument); this is a read and changes nothing
+                note("read")
+                ctx.model["historical_read_in_bar"] = ctx.bar
+                from demeter.squeeth.market import WETH as _W, oSQTH as _O
+                old = ctx.index[max(ctx.bar - 9, 0)].to_pydatetime()
+                return (m.get_twap_price(_W, now=old), m.get_twap_price(_O, now=old))
+            out.append(Op("twap_at[old]", ask_old_twap, True, "read"))
         if POS not in um._positions:
             def addlp(c):
                 note("add_lp")
@@ -263,6 +276,7 @@ def advance(ctx, world):
     rec["actions"] = [type(a).__name__ for a in ctx.actions[rec["n_actions"]:]]
     ctx.last = {"kind": "advance", "rec": rec}
     if rec["raised"] is None:
+        ctx.model["historical_read_in_bar"] = None
         ctx.begin_bar(ctx.bar + 1)
 
 
@@ -292,6 +306,12 @@ class Oracle:
             self.judge_bar(ctx, hist, info.get("rec"))
             return
         if op.kind == "add_lp":
+            return
+        if op.kind == "read":
+            if not out.ok:
+                part.violation("C14|read|exception", "asking for a historical time-weighted price raised", self.case(hist), {"error": out.error})
+            elif ctx.raw() != pre_raw:
+                part.violation("C14|read|changed-state", "asking for a historical time-weighted price changed vaults or wallet", self.case(hist))
             return
         part.count(f"op.{op.kind}.{'acc' if out.ok else 'rej'}")
         post_raw = ctx.raw()
